@@ -570,32 +570,58 @@ class ValueSweep:
                 continue
             if not same(got, round7(v)):
                 self.res.add("float:fix:value", f"fix_float_single_double_conversion({v!r}) = {got!r}, 7 significant digits give {round7(v)!r}")
-        # through from_pb: every float field (designated or not)
-        per_field = grid if self.tier != "quick" else float_grid(MANT64[::4])
+        # through from_pb: every float field (designated or not), one job per field on a process pool
+        jobs = []
         for wname, mname in sorted(self.pairs.items()):
             klass = getattr(pb, wname)
-            cls = getattr(self.model, mname)
             for fd in klass.DESCRIPTOR.fields:
-                if fd.type != FD.TYPE_FLOAT or pbgen.is_repeated(fd):
-                    continue
-                rounded = fd.name in ROUNDED.get(mname, ())
-                m = klass()
-                prepare_uuid(m)
-                for v in per_field:
-                    setattr(m, fd.name, v)
-                    n += 1
-                    try:
-                        obj = cls.from_pb(m)
-                    except Exception as e:  # noqa: BLE001
-                        self.res.add(f"convert:{mname}.{fd.name}:grid:raises", f"{mname}.from_pb raised {type(e).__name__}: {e} for {fd.name}={v!r}")
-                        break
-                    got = getattr(obj, fd.name)
-                    want = round7(v) if rounded else v
-                    if not same(got, want):
-                        self.res.add(f"convert:{mname}.{fd.name}", f"{wname}.{fd.name}={v!r} converted to {got!r}, expected {want!r}"
-                                     + (" (7 significant digits)" if rounded else " (not a designated field: unchanged)"))
-                        break
+                if fd.type == FD.TYPE_FLOAT and not pbgen.is_repeated(fd):
+                    jobs.append((wname, mname, fd.name, fd.name in ROUNDED.get(mname, ()), self.tier))
+        import multiprocessing as mp
+        import os
+
+        ctx = mp.get_context("fork")
+        with ctx.Pool(min(16, os.cpu_count() or 1)) as pool:
+            for cnt, viol in pool.map(_grid_field_job, jobs, chunksize=1):
+                n += cnt
+                for k, clause in viol:
+                    self.res.add(k, clause)
         return n
+
+
+def _grid_field_job(job: tuple[str, str, str, bool, str]) -> tuple[int, list[tuple[str, str]]]:
+    wname, mname, fname, rounded, tier = job
+    env.load()
+    from aioesphomeapi import model
+
+    pb = env.pb()
+    klass = getattr(pb, wname)
+    cls = getattr(model, mname)
+    if tier == "quick":
+        grid = float_grid(MANT64[::4])
+    elif rounded:
+        grid = float_grid(sorted(set(MANT64) | {(i * 2053) & 0x7FFFFF for i in range(4096)}))
+    else:
+        grid = float_grid(MANT64)
+    m = klass()
+    prepare_uuid(m)
+    n = 0
+    viol: list[tuple[str, str]] = []
+    for v in grid:
+        setattr(m, fname, v)
+        n += 1
+        try:
+            obj = cls.from_pb(m)
+        except Exception as e:  # noqa: BLE001
+            viol.append((f"convert:{mname}.{fname}:grid:raises", f"{mname}.from_pb raised {type(e).__name__}: {e} for {fname}={v!r}"))
+            break
+        got = getattr(obj, fname)
+        want = round7(v) if rounded else v
+        if not same(got, want):
+            viol.append((f"convert:{mname}.{fname}", f"{wname}.{fname}={v!r} converted to {got!r}, expected {want!r}"
+                         + (" (7 significant digits)" if rounded else " (not a designated field: unchanged)")))
+            break
+    return n, viol
 
 
 def check_ble_advertisement(res: Result, counter: list[int]) -> None:
